@@ -613,5 +613,7 @@ func TestVerifC17Delivery(t *testing.T) {
 			r.Bound += fmt.Sprintf("; all sequences of %d sends (pre-queued%s)", n, map[bool]string{true: " + live Send + TrySend", false: ""}[n == 4 && vr.Thorough()])
 		}
 	}
-	r.Set("cases_enumerated_total", k)
+	if r.Shard == 0 {
+		r.Set("cases_enumerated_total", k)
+	}
 }
